@@ -68,6 +68,10 @@ class Stats:
 
 ENG = None  # the engine of the exploration currently running in this process
 
+# str()/repr()/format() of a symbolic integer: by default a fixed token (diagnostic messages must not fork the
+# exploration); harnesses whose subject *is* the printed form set this to True, and the value is concretised.
+STR_CONCRETIZES = False
+
 
 def cur():
     return ENG
@@ -82,6 +86,8 @@ class Engine:
         self.trace = []
         self.pos = 0
         self.nfresh = 0
+        self.vars = {}
+        self.pending_globals = []
 
     # ---- solver plumbing
     def check(self, *extra):
@@ -103,27 +109,33 @@ class Engine:
             cond = z3.BoolVal(cond)
         self.solver.add(cond)
 
+    def _declare(self, name, mk, lo, hi):
+        """One solver variable per name for the whole exploration; its range constraint is asserted once at the
+        base level of the solver (it holds on every path) instead of once per path."""
+        ent = self.vars.get(name)
+        if ent is None:
+            v = mk(name)
+            cs = []
+            if lo is not None:
+                cs.append(v >= lo)
+            if hi is not None:
+                cs.append(v <= hi)
+            self.vars[name] = (v, lo, hi)
+            if cs:
+                self.solver.add(*cs)          # current scope (this path)
+                self.pending_globals.extend(cs)   # re-asserted at base level after this path is popped
+            return v
+        assert ent[1] == lo and ent[2] == hi, 'symx: %s redeclared with another range' % name
+        return ent[0]
+
     def fresh_int(self, name, lo=None, hi=None):
-        self.nfresh += 1
-        v = z3.Int('%s!%d' % (name, self.nfresh))
-        if lo is not None:
-            self.solver.add(v >= lo)
-        if hi is not None:
-            self.solver.add(v <= hi)
-        return SymInt(v)
+        return SymInt(self._declare(name, z3.Int, lo, hi))
 
     def fresh_bool(self, name):
-        self.nfresh += 1
-        return SymBool(z3.Bool('%s!%d' % (name, self.nfresh)))
+        return SymBool(self._declare(name, z3.Bool, None, None))
 
     def fresh_real(self, name, lo=None, hi=None):
-        self.nfresh += 1
-        v = z3.Real('%s!%d' % (name, self.nfresh))
-        if lo is not None:
-            self.solver.add(v >= lo)
-        if hi is not None:
-            self.solver.add(v <= hi)
-        return SymReal(v)
+        return SymReal(self._declare(name, z3.Real, lo, hi))
 
     # ---- decisions
     def _next_prefix(self):
@@ -255,6 +267,9 @@ class Engine:
                 ENG = prev
                 tr = self.trace
                 self.solver.pop()
+                if self.pending_globals:
+                    self.solver.add(*self.pending_globals)
+                    self.pending_globals = []
             for i in range(len(prefix), len(tr)):
                 ent = tr[i]
                 if ent[0] == 'b' and ent[2]:
@@ -327,10 +342,14 @@ class SymBool:
     __int__ = __index__
 
     def __repr__(self):
+        if not STR_CONCRETIZES:
+            return '<sym-bool>'
         return repr(ENG.concretize(self.e, 'bool'))
     __str__ = __repr__
 
     def __format__(self, spec):
+        if not STR_CONCRETIZES:
+            return '<sym-bool>'
         return format(ENG.concretize(self.e, 'bool'), spec)
 
 
@@ -555,10 +574,14 @@ class SymInt:
         return hash(self.concretize())
 
     def __repr__(self):
+        if not STR_CONCRETIZES:
+            return '<sym-int>'
         return repr(self.concretize())
     __str__ = __repr__
 
     def __format__(self, spec):
+        if not STR_CONCRETIZES:
+            return '<sym-int>'
         return format(self.concretize(), spec)
 
     @property
